@@ -274,7 +274,7 @@ pub fn scenarios(tier: Tier) -> Vec<Scenario> {
         for rs in &route_sets {
             for stop in [Stop::Shutdown(1), Stop::Shutdown(2), Stop::DropProxy] {
                 for racing in [false, true] {
-                    let b = if rs.len() + racing as usize + matches!(stop, Stop::Shutdown(2)) as usize <= 1 { 3 } else { 2 };
+                    let b = if rs.len() + racing as usize + matches!(stop, Stop::Shutdown(2)) as usize <= 1 { 4 } else { 3 };
                     add(P { routes: rs.clone(), stop, racing_add: racing, traffic: false }, b);
                     if !rs.is_empty() {
                         add(P { routes: rs.clone(), stop, racing_add: racing, traffic: true }, 2);
